@@ -121,6 +121,11 @@ class G:
         return "m%d" % self.msg_n
 
     def commit_all(self, **kw):
+        if self.cfg.get("old_author_dates") and "env" not in kw and self.rng.random() < 0.5:
+            # work that was authored long ago (a patch applied with its original date, git commit --date=..): the author
+            # date lies before git-ai existed, the committer date is now
+            kw["env"] = {"GIT_AUTHOR_DATE": "@%d +0000" % self.rng.choice([1709251200, 1735689600, 1262304000])}
+            self.ex.probe("old_author_date")
         return [self.git("add", "-A"), self.git("commit", "-q", "-m", self.msg(), check=True, **kw)]
 
     def pick_session(self):
